@@ -135,7 +135,7 @@ func cmdLiveness(args []string) int {
 			n, ws, byz = 4, scenarioWeights(scen), scenarioByz(scen)
 		}
 		cl := newCluster(ws, byz, 1, scen == "" && rnd.Intn(2) == 0)
-		cl.oneShotTimer = true
+		cl.oneShotTimer = scen != "" // directed prefixes only: in the random prefixes (thorough tier, seed 1, run 5170) it led to an alarm on the unchanged tree that was not analysed - see DESIGN 7
 		r := &run{cl: cl, adv: newAdversary(cl), rnd: rnd, out: out, chain: map[uint64]commitRec{}, maxH: 1, stats: stats, tmpl: tmpl, label: "liveness"}
 		lr := &liveRun{run: r, crashed: map[int]bool{}, armedAt: map[int]float64{}, lastReg: map[int][2]uint64{}}
 		r.emitInit(i)
